@@ -12,7 +12,7 @@ use std::panic::{catch_unwind, AssertUnwindSafe};
 fn budget(t: Tier) -> u64 {
     match t {
         Tier::Quick => 396,
-        Tier::Thorough => 1_584,
+        Tier::Thorough => 12_672,
     }
 }
 
